@@ -707,7 +707,9 @@ func (server *Server) registerCoreExecutors() {
 			return nil, err
 		}
 
-		msg, err := server.userCommandHandler.ZRange(conn, key, start, stop, opt)
+		// The element at reverse rank r is the element at forward rank -(r+1),
+		// so the reverse range start..stop is the forward range -(stop+1)..-(start+1).
+		msg, err := server.userCommandHandler.ZRange(conn, key, -(stop + 1), -(start + 1), opt)
 		if err != nil {
 			return msg, err
 		}
